@@ -193,6 +193,7 @@ fn main() {
             if d.n <= 2 || th {
                 m.extend(pd_r2_moves(d));
             }
+            m.extend(pd_r3_moves(d));
             m
         } else {
             vec![("reverse-all".to_string(), d.reverse_all())]
